@@ -26,6 +26,8 @@ func init() {
 		Run: runC15,
 	})
 	addMutants("C15",
+		mutant{"pong accepted before the control-frame checks", "codec/websocket/stream.go",
+			"func (s *Stream) handleControlFrame(f Frame) (err error) {\n\tif !f.IsFIN() {", "func (s *Stream) handleControlFrame(f Frame) (err error) {\n\tif f.Opcode() == OpcodePong {\n\t\treturn nil\n\t}\n\tif !f.IsFIN() {", "C15-R2"},
 		mutant{"opcode 3 no longer reserved", "codec/websocket/rfc6455.go",
 			"\treturn c != OpcodeContinuation &&\n\t\tc != OpcodeText &&", "\treturn c > OpcodeBinary && c != 3 &&\n\t\tc != OpcodeText &&", "C15-R1"},
 		mutant{"reserved data opcodes delivered", "codec/websocket/stream.go",
@@ -255,18 +257,96 @@ func runC15(c *Ctx) {
 		fn := w.handleControl
 		maxCtl, _ := constantInt(p.Const(ws, "MaxControlFramePayloadLength"))
 		var effects []ssa.Instruction
-		eachInstr(fn, func(in ssa.Instruction) {
-			if st, ok := in.(*ssa.Store); ok {
-				if fv, _ := fieldAddrOf(st.Addr); fv == w.state {
+		viaSite := map[ssa.Instruction]ssa.Instruction{} // effect inside a per-opcode helper -> the call in handleControlFrame
+		var gather func(g *ssa.Function, site ssa.Instruction, depth int)
+		gather = func(g *ssa.Function, site ssa.Instruction, depth int) {
+			eachInstr(g, func(in ssa.Instruction) {
+				isEffect := false
+				if st, ok := in.(*ssa.Store); ok {
+					if fv, _ := fieldAddrOf(st.Addr); fv == w.state {
+						isEffect = true
+					}
+				}
+				if isCallToFn(in, w.prepareWrite, w.prepareClose) {
+					isEffect = true
+				}
+				if isEffect {
 					effects = append(effects, in)
+					if site != nil {
+						viaSite[in] = site
+					}
+					return
+				}
+				if call, ok := in.(*ssa.Call); ok && depth < 2 {
+					if h := call.Call.StaticCallee(); isHelperOf(fn, h) && h != w.prepareWrite && h != w.prepareClose {
+						s2 := site
+						if s2 == nil {
+							s2 = in
+						}
+						gather(h, s2, depth+1)
+					}
+				}
+			})
+		}
+		gather(fn, nil, 0)
+		// a validator: a function whose nil results are all guarded by FIN and payload <= 125
+		finSmall := func(b *ssa.BasicBlock) (bool, bool) {
+			fin, small := false, false
+			for _, l := range guardsOf(b) {
+				if _, pos, ok := callLit(l, w.isFIN); ok && pos {
+					fin = true
+				}
+				op, x, y, ok := l.cmp()
+				if ok && ((op == token.LEQ && isConstInt(y, maxCtl)) || (op == token.LSS && isConstInt(y, maxCtl+1))) {
+					if call, ok := strip(x).(*ssa.Call); ok && isCallToFn(call, w.payloadLen) {
+						small = true
+					}
 				}
 			}
-			if isCallToFn(in, w.prepareWrite, w.prepareClose) {
-				effects = append(effects, in)
+			return fin, small
+		}
+		isValidator := func(v *ssa.Function) bool {
+			if v == nil || v.Blocks == nil {
+				return false
 			}
-		})
+			n := 0
+			for _, r := range returnsOf(v) {
+				if len(r.Results) != 1 {
+					return false
+				}
+				if isNil(r.Results[0]) {
+					n++
+					if f1, s1 := finSmall(r.Block()); !f1 || !s1 {
+						return false
+					}
+				}
+			}
+			return n > 0
+		}
+		validated := func(b *ssa.BasicBlock) bool {
+			for _, l := range guardsOf(b) {
+				if x, eq, ok := l.nilTest(); ok && eq {
+					for _, leaf := range phiLeaves(resolveCell(x)) {
+						if call, ok := resolveCell(leaf).(*ssa.Call); ok && isValidator(call.Call.StaticCallee()) {
+							return true
+						}
+					}
+				}
+			}
+			return false
+		}
 		for _, ef := range effects {
-			fin, small := false, false
+			fin, small := finSmall(ef.Block())
+			if validated(ef.Block()) {
+				fin, small = true, true
+			}
+			if site := viaSite[ef]; site != nil {
+				f2, s2 := finSmall(site.Block())
+				fin, small = fin || f2, small || s2
+				if validated(site.Block()) {
+					fin, small = true, true
+				}
+			}
 			for _, l := range guardsOf(ef.Block()) {
 				if _, pos, ok := callLit(l, w.isFIN); ok && pos {
 					fin = true
@@ -284,6 +364,61 @@ func runC15(c *Ctx) {
 				}
 			}
 			c.check(fin && small, fn, "control effect", ef.Pos(), "guarded by FIN and payload <= 125", "a control frame changes the stream state / queues a reply without the FIN bit and the 125-byte limit having been checked: fragmented or oversized control frames are acted upon")
+		}
+		// every control frame that is accepted (nil result) was found to carry FIN and at most 125 payload bytes - also the
+		// ones that have no effect (a Pong): a fragmented or oversized control frame is a protocol violation to report
+		{
+			litsOK := func(path *Path) bool {
+				fin, small := false, false
+				for _, l := range path.Lits {
+					if _, pos, ok := callLit(l.Lit, w.isFIN); ok && pos {
+						fin = true
+					}
+					op, x, y, ok := l.cmp()
+					if ok && ((op == token.LEQ && isConstInt(y, maxCtl)) || (op == token.LSS && isConstInt(y, maxCtl+1))) {
+						if call, ok := strip(x).(*ssa.Call); ok && isCallToFn(call, w.payloadLen) {
+							small = true
+						}
+					}
+					if x, eq, ok := l.nilTest(); ok && eq {
+						if call, ok := resolveCell(path.eval(x, l.At)).(*ssa.Call); ok && isValidator(call.Call.StaticCallee()) {
+							fin, small = true, true
+						}
+					}
+				}
+				return fin && small
+			}
+			var okNil func(g *ssa.Function, depth int) (bool, token.Pos)
+			okNil = func(g *ssa.Function, depth int) (bool, token.Pos) {
+				paths, overflow := enumPaths(g)
+				if overflow {
+					return false, g.Pos()
+				}
+				for _, path := range paths {
+					ret := path.Ret()
+					if path.Panics || ret == nil || len(ret.Results) == 0 {
+						continue
+					}
+					v := path.evalEnd(ret.Results[len(ret.Results)-1])
+					if path.nilness(v) == "nonnil" || litsOK(path) {
+						continue
+					}
+					if call, ok := resolveCell(v).(*ssa.Call); ok && depth > 0 {
+						if h := call.Call.StaticCallee(); h != nil && h.Blocks != nil && fnTypesPkg(h) == fnTypesPkg(g) {
+							if isValidator(h) {
+								continue
+							}
+							if okh, _ := okNil(h, depth-1); okh {
+								continue
+							}
+						}
+					}
+					return false, exitPos(ret)
+				}
+				return true, token.NoPos
+			}
+			okAll, at := okNil(fn, 2)
+			c.check(okAll, fn, "control frame accepted", at, "a control frame is accepted only with FIN set and at most 125 payload bytes", "a control frame can be accepted (nil result) without the FIN bit and the 125-byte limit having been checked on that path: a fragmented or oversized control frame (a Pong, say) is not reported as the protocol violation it is")
 		}
 		if len(effects) == 0 {
 			c.bad(fn, "control effect", fn.Pos(), "handleControlFrame has no effect")
